@@ -17,7 +17,8 @@ CFG = {
             "decoded value compared as an item), every generated value is encoded by the real encoder and by encTy (tenc); in addition "
             "the real code is judged directly: decode(encode v)=v and decode ok => re-encoding equals the input. Non-trivial = the real "
             "decoder accepted the input (distinct inputs counted).",
-    "tie": {"rlp.DecodeBytes/Stream into interface{}": "corr (Go vs Model.Rlp.dec)",
+    "tie": {"rlp.headsize (mini-translator; rlp.intsize is a loop: refused, explicit parameter)": "translated (go/ssa -> Lean on every run; headsize_code_is_model) + corr",
+            "rlp.DecodeBytes/Stream into interface{}": "corr (Go vs Model.Rlp.dec)",
             "rlp.Stream (Kind, readKind, readUint, readFull, readByte, willRead, Bytes, List, ListEnd, decodeInterface/decodeListSlice) "
             "through NewStream(r,len)+Decode+second Decode and through DecodeBytes":
                 "corr WITH error kinds (Go vs the Go-shaped machine Model.RlpStream, line kind sdec) + proof stream_refines (machine = Model.Rlp.dec)",
